@@ -72,6 +72,8 @@ func runC19(c *report.Ctx) {
 	ruleNilOnSuccess(c)
 	ruleBalanceMapCoversReadyWallets(c)
 	ruleBalanceLookupPresence(c)
+	ruleUnmarshalLeavesKeyUsable(c)
+	ruleRestoreSliceCoversRequestedCount(c)
 	ruleSelectionResetOnDelete(c)
 
 	// ---- (4) containment ------------------------------------------------------------------------
